@@ -122,6 +122,9 @@ def r1_descriptor(chk):
                     texts.append(norm(w.iter))
                 if isinstance(w, ast.Expr) and isinstance(w.value, ast.Call) and isinstance(w.value.func, ast.Attribute) and norm(w.value.func.value) == nm and w.value.func.attr == "update":
                     texts.append(norm(w.value))
+                # `for k, v in <mapping>.items(): d[k] = v` fills d from that mapping
+                if isinstance(w, ast.For) and any(isinstance(x, ast.Assign) and isinstance(x.targets[0], ast.Subscript) and norm(x.targets[0].value) == nm for x in ast.walk(w)):
+                    texts.append(norm(w.iter))
         return v, texts
 
     for attr in ("executable", "nprocs", "envars"):
@@ -370,7 +373,20 @@ def r2_runner(chk, rl):
                 nmvar = norm(l.target.elts[-1].elts[-1]) if isinstance(l.target, ast.Tuple) and isinstance(l.target.elts[-1], ast.Tuple) else (norm(l.target.elts[-1]) if isinstance(l.target, ast.Tuple) else "name")
                 unnamed = {n_.id for n_ in cfg_r.nodes if n_.kind == "stmt" and n_.ast is not None and any(x is n_.ast for x in ast.walk(l))
                            and any(norm(c_) in (f"{nmvar} is None", f"not {nmvar}") for c_ in _pc(src, n_.ast))}
-                if cfg_r.path(cfg_r.succs(hdr[0]) if hdr else [cfg_r.entry], rn - unnamed, avoid=an | unnamed, edge_ok=lambda a, b, lab: lab not in ("exc", "raise", "except")) is not None:
+                # ... and a way that takes the "no name" side of a test on the name is not the way of a named command either
+                def _named_way(a, b, lab):
+                    if lab in ("exc", "raise", "except"):
+                        return False
+                    na = cfg_r.nodes[a]
+                    if na.kind == "test" and isinstance(na.ast, ast.If):
+                        t_ = norm(na.ast.test)
+                        if t_ in (f"{nmvar} is not None", nmvar) and lab == "false":
+                            return False
+                        if t_ in (f"{nmvar} is None", f"not {nmvar}") and lab == "true":
+                            return False
+                    return True
+
+                if cfg_r.path(cfg_r.succs(hdr[0]) if hdr else [cfg_r.entry], rn - unnamed, avoid=an | unnamed, edge_ok=_named_way) is not None:
                     problems.append(f"a named command can run without its name being recorded in `{coll}`: its captured output is never read back")
             elif "job.commands" in txt and "fail" in names_in(e) and "[:fail + 1]" in txt:
                 pass  # the commands up to and including the failing one
@@ -560,7 +576,17 @@ def r5_job_codec(chk):
                    f"{cname}.dump serialises `{norm(dc[0].args[0]) if dc else None}`, not attrs.asdict(self) as is: the object read back differs from the one written"
                    + (" and hashes differently, so input_hash never matches the caller's hash" if cname == "JobInput" else ""))
         lc = [r for r in walk_no_nested(l.node) if isinstance(r, ast.Return)]
-        okl = len(lc) == 1 and norm(lc[0].value) in ("cls(**msgpack.load(f))", "cls(**msgpack.unpack(f))", "cls(**msgpack.loads(f.read()))")
+        # the mapping may be named before it is handed to the constructor - but nothing may touch it in between
+        okl = False
+        if len(lc) == 1:
+            rv = _E5d(l.node).expand(lc[0].value, at=lc[0])
+            okl = norm(rv) in ("cls(**msgpack.load(f))", "cls(**msgpack.unpack(f))", "cls(**msgpack.loads(f.read()))")
+            if okl and isinstance(lc[0].value, ast.Call) and lc[0].value.keywords and isinstance(lc[0].value.keywords[0].value, ast.Name):
+                nm_l = lc[0].value.keywords[0].value.id
+                okl = not any((isinstance(x, (ast.Assign, ast.AugAssign, ast.Delete)) and any(p_.startswith(nm_l + "[") for p_ in stored_paths(x)))
+                              or (isinstance(x, ast.Call) and isinstance(x.func, ast.Attribute) and norm(x.func.value) == nm_l and x.func.attr in ("update", "pop", "clear", "setdefault", "popitem", "__setitem__"))
+                              or (isinstance(x, ast.Call) and any(isinstance(a_, ast.Name) and a_.id == nm_l for a_ in x.args) and x is not lc[0].value)
+                              for x in walk_no_nested(l.node))
         chk.decide(okl, "C17.R5", f"{l.key}:rebuilds-from-mapping", l.where(lc[0] if lc else None), "cls(**msgpack.load(f))", f"{cname}.load does not rebuild the object from the stored mapping as is")
     h = prog.func(f"{JOB}:JobInput.hash", "getter")
     chk.analysed(h)
